@@ -105,6 +105,8 @@ func (p transportProfile) String() string {
 }
 
 type xferWorld struct {
+	ccKeys     bool // keys typed while a transfer runs arrive as tmux control-mode commands
+	ccKeysSent int
 	termMark int // terminal offset at which the current transfer began
 	ccTyped  []byte // srvCCFrame: what was typed into tmux's command channel
 	chunkHooks []func(l *verifsim.Link, d []byte) // vOnChunk hooks, also applied to tunnel connections dialled later
@@ -183,6 +185,21 @@ func newXferWorld(rc *runCtx, o *xferOpts) *xferWorld {
 		return l
 	}
 	x.kbd = w.NewLink("kbd")
+	// a terminal that talks tmux control mode to the client (iTerm2 with tmux -CC) delivers keys as commands:
+	// "send -t %1 0x3\r" for Ctrl-C, "send -t %1 0x1b 0x5b 0x42\r" for an arrow key
+	x.kbd.Mangle = func(l *verifsim.Link, d []byte) []byte {
+		if !x.ccKeys || len(d) == 0 || len(d) > 8 || x.filter == nil || !x.filter.IsTransferringFiles() {
+			return d
+		}
+		var b bytes.Buffer
+		b.WriteString("send -t %1")
+		for _, c := range d {
+			fmt.Fprintf(&b, " 0x%x", c)
+		}
+		b.WriteString("\r")
+		x.ccKeysSent++
+		return b.Bytes()
+	}
 	x.term = w.NewLink("term")
 	x.term.Record = !o.noRecord
 	for i := 0; i <= o.relays; i++ {
